@@ -188,6 +188,10 @@ class _WFile:
                 raise OSError(errno.ENOSPC, "injected short write", self._path)
         return real.write(data)
 
+    def writelines(self, lines):
+        for chunk in lines:          # every chunk is a write of its own (logged, may be faulted)
+            self.write(chunk)
+
     def close(self):
         if _state["on"] and not _state["suspend"] and not self._closed_logged:
             object.__setattr__(self, "_closed_logged", True)
